@@ -232,6 +232,9 @@ fn split_server(results: Vec<ServerSessionResult>) -> (Vec<Packet>, Vec<ServerSe
                 order.push(1);
             }
             ServerSessionResult::UnhandleableMessageReceived(_) => {}
+            // a result kind added to the library later must not break the build of the checks
+            #[allow(unreachable_patterns)]
+            _ => {}
         }
     }
     (packets, events, order)
@@ -252,6 +255,9 @@ fn split_client(results: Vec<ClientSessionResult>) -> (Vec<Packet>, Vec<ClientSe
                 order.push(1);
             }
             ClientSessionResult::UnhandleableMessageReceived(_) => {}
+            // a result kind added to the library later must not break the build of the checks
+            #[allow(unreachable_patterns)]
+            _ => {}
         }
     }
     (packets, events, order)
